@@ -1326,6 +1326,7 @@ func TestCheck(t *testing.T) {
 		"before the client fetches the entry; one case per unverified-mix scenario (4-6 such entries, revoked-afterwards and verifiable ones stored by the client in a seeded order, on two services, outages ending in two steps; distinct by the order; " +
 		"the client's search must return exactly the entries it had a pass to verify). Several credentials: on a third service whose definition asks for three credentials, one case per (per-credential admission clause x index of the offending credential x expiry of its neighbours), " +
 		"each next to a control presentation that is accepted; the reference decision follows from the generated credentials. " +
+		"Directed resets: the new list's last timestamp is above / equal to / below the timestamp the client stored under the old seed (rotating). " +
 		"Real expiry: one case per real-expiry scenario (a subject replaces the entry the client holds by a retraction / refresh valid for 4-6 s and the client polls only after that successor expired for real while the server, which prunes on the next registration only, still hands it out; " +
 		"next to a short-lived first registration, short-lived entries fetched while valid and a long-lived refresh, in a seeded order = distinct; non-trivial when the server still served an expired entry). " +
 		"Every poll at quiescence is preceded by a GET of what the server answers after the client's timestamp: once such a poll completed, the client must not list an entry whose replacement was in that answer. " +
@@ -1397,6 +1398,9 @@ func TestCheck(t *testing.T) {
 	}
 	if r.Get("defective_retraction-validity-exceeds-max") == 0 || r.Get("retraction_sweep_defects") < 8 {
 		r.Fatalf("the retraction sweep posted %d defective retractions: the retraction kind of the admission clauses was not exercised", r.Get("retraction_sweep_defects"))
+	}
+	if r.Get("scenario_reset_overtake_new_timestamp_equal") == 0 {
+		r.Fatalf("no reset was followed by a list whose timestamp equals the client's stored one")
 	}
 	if hits == 0 {
 		r.Fatalf("no status list was ever fetched: revoked / unverifiable cases observed nothing")
@@ -1607,8 +1611,14 @@ func mustJSON(v any) []byte { b, _ := json.Marshal(v); return b }
 // resetOvertake: the server is reset and receives more registrations than the client's last timestamp before the client polls again.
 func (w *world) resetOvertake() {
 	// a short-lived seed first, so that the client's timestamp is small
+	// the new seed's last timestamp relative to the one the client stored under the old seed: above (0), equal (1), below (2);
+	// rotates over the pairs and histories so that every tier runs each
+	variant := (w.id + w.ctx.idx/5) % 3
 	w.evReset()
 	k := 1 + w.rnd.Intn(3)
+	if variant == 2 {
+		k++
+	}
 	for i := 0; i < k; i++ {
 		w.evRegister(w.anySubject())
 	}
@@ -1618,12 +1628,24 @@ func (w *world) resetOvertake() {
 	w.note("poll x2")
 	w.evReset()
 	w.checkServer("reset-overtake/reset", true)
-	for _, s := range w.subj {
-		w.evRegister(s)
+	switch variant {
+	case 0:
+		for _, s := range w.subj {
+			w.evRegister(s)
+		}
+		for i := 0; i < w.rnd.Intn(3); i++ {
+			w.evRegister(w.anySubject())
+		}
+	case 1:
+		for i := 0; i < k; i++ {
+			w.evRegister(w.anySubject())
+		}
+	default:
+		for i := 0; i < k-1-w.rnd.Intn(2); i++ {
+			w.evRegister(w.anySubject())
+		}
 	}
-	for i := 0; i < w.rnd.Intn(3); i++ {
-		w.evRegister(w.anySubject())
-	}
+	w.r.Count(fmt.Sprintf("scenario_reset_overtake_new_timestamp_%s", []string{"above", "equal", "below"}[variant]), 1)
 	w.checkServer("reset-overtake/registered", true)
 	w.converge("reset-overtake")
 	w.r.Count("scenario_reset_overtake", 1)
